@@ -1,6 +1,7 @@
 package main
 
 import (
+	"go/types"
 	"fmt"
 	"go/token"
 	"sort"
@@ -34,6 +35,9 @@ func checkC31(c *Ctx, r *Report) {
 	// the partition loop the decode is skipped only for an empty Records field (a test on the wire
 	// bytes sees the compressed form of a batch and misses what is inside it)
 	r.rule("C31.R6", "every partition with records is decoded: the only way past lfsDecodeRecordBatches within an iteration is len(partition.Records)==0", 1)
+	r.rule("C31.R7", "a key, value or header value is re-encoded as null (length -1) only when it was null: every lfsAppendVarint(…, -1) is reached only over a `b == nil` test of the bytes being encoded (an empty, non-null field keeps length 0)", 1)
+	r.Explanation += " (R7) the re-encoder writes the null length -1 only behind a nil test of the field's bytes, never a length test, so empty non-null keys, values and header values of unflagged records keep their encoding."
+	checkNullEncoding(m, r, "C31.R7")
 	{
 		key := "rewriteProduceRecords decodes every non-empty partition"
 		decs := findCalls(fn, pkgProxy+".lfsDecodeRecordBatches")
@@ -584,5 +588,38 @@ func checkAppendToFresh(m *Module, r *Report) {
 	}
 	if n == 0 {
 		r.unresolved("C31.R5", "RecordBatch.AppendTo calls in cmd/proxy", "none found")
+	}
+}
+
+// checkNullEncoding (C31.R7, added after a seeded change turned `b == nil` into `len(b) == 0` in
+// the shared byte-field encoder, so that empty values of untouched records became tombstones).
+func checkNullEncoding(m *Module, r *Report, rule string) {
+	isNilTest := atomFn("bytes == nil", func(l Lit) bool {
+		if l.Op != token.EQL {
+			return false
+		}
+		isBytes := func(v ssa.Value) bool {
+			_, ok := v.Type().Underlying().(*types.Slice)
+			return ok
+		}
+		return (isBytes(l.X) && alwaysNil(l.Y)) || (isBytes(l.Y) && alwaysNil(l.X))
+	})
+	n := 0
+	for _, fn := range m.FuncsInPkg(pkgProxy) {
+		for _, call := range findCalls(fn, pkgProxy+".lfsAppendVarint") {
+			args := call.Common().Args
+			if len(args) != 2 {
+				continue
+			}
+			if k, ok := constInt(args[1]); !ok || k != -1 {
+				continue
+			}
+			n++
+			r.fn(fn)
+			guardVerdict(m, r, rule, "null length written in "+shortName(fn)+" only for a nil field", fn, call.(ssa.Instruction), Guard{cl(isNilTest)})
+		}
+	}
+	if n == 0 {
+		r.unresolved(rule, "lfsAppendVarint(…, -1) sites", "none found in cmd/proxy")
 	}
 }
